@@ -773,6 +773,55 @@ func c05Worker(w *W) {
 				}
 			}
 		}
+		// Stop, then Start again on the very same File / RollingFile appender object (a reopen, e.g. after an external rename of
+		// the file): what is written in the second life is in the file the second Start opened
+		for name, f := range mk {
+			if name != "File" && name != "RollingFile" {
+				continue
+			}
+			rd := filepath.Join(dir, "reopen"+name)
+			_ = os.RemoveAll(rd)
+			_ = os.MkdirAll(rd, 0755)
+			var a log.Appender
+			if name == "File" {
+				a = &log.FileAppender{Layout: &log.TextLayout{}, FileDir: rd, FileName: "ro.log"}
+			} else {
+				a = &log.RollingFileAppender{Layout: &log.TextLayout{}, FileDir: rd, FileName: "ro.log", Rotation: log.TimeRotation{Interval: time.Hour}, MaxAge: 24}
+			}
+			_ = f
+			cs := map[string]any{"scenario": "Start, write, Stop, (file renamed aside), Start, write, Stop on one appender object", "appender": name}
+			bad := ""
+			for life := 0; life < 3 && bad == ""; life++ {
+				if err := a.Start(); err != nil {
+					bad = fmt.Sprintf("life %d: Start failed: %v", life, err)
+					break
+				}
+				for i := 0; i < 5; i++ {
+					a.Write([]byte(fmt.Sprintf("id-ro%d-%d line\n", life, i)))
+				}
+				a.Stop()
+				got := idsIn(readDirAll(rd))
+				for l2 := 0; l2 <= life; l2++ {
+					for i := 0; i < 5; i++ {
+						if got[fmt.Sprintf("id-ro%d-%d", l2, i)] != 1 {
+							bad = fmt.Sprintf("after life %d: id-ro%d-%d is in the directory %d times", life, l2, i, got[fmt.Sprintf("id-ro%d-%d", l2, i)])
+						}
+					}
+				}
+				if fds := fdsInto(rd); bad == "" && len(fds) != 0 {
+					bad = fmt.Sprintf("after life %d: descriptors still open: %v", life, fds)
+				}
+				if name == "File" && life == 0 {
+					_ = os.Rename(filepath.Join(rd, "ro.log"), filepath.Join(rd, "ro.log.1")) // logrotate moved it; the next Start creates a new one
+				}
+			}
+			w.Eval(1)
+			if bad != "" {
+				w.Violate("C05:reopen:"+name, bad, cs)
+			} else {
+				w.Distinct("reopen|" + name)
+			}
+		}
 		// a target on which fsync fails (a named pipe, as with 'app.log -> /dev/stdout' links in containers): Stop must still
 		// release the descriptor - the reader at the other end sees end-of-file
 		for _, mkAp := range []func(string) log.Appender{
